@@ -227,13 +227,14 @@ def save_replay(prop, idx, desc, driver, trace_file, run_index, hits, extra=None
     return d
 
 
-def run_apalache(spec_rel, inv, expect_ok=True, timeout=600, init=None, length=0):
+def run_apalache(spec_rel, inv, expect_ok=True, timeout=900, init=None, length=0, next=None, cinit=None):
     """Discharge (or, for a negative control, refute) an invariant with Apalache: at length 0 (Init => Inv over unbounded integers), or,
     with init=<predicate describing an arbitrary state that satisfies the invariant> and length=1, the inductive step Inv /\ Next => Inv'."""
     outdir = os.path.join(WORK, "apalache_%s_%s" % (inv, init or "Init"))
     t0 = time.time()
     try:
-        p = subprocess.run(["apalache-mc", "check", "--length=%d" % length, "--inv=" + inv] + (["--init=" + init] if init else []) + ["--out-dir=" + outdir, os.path.basename(spec_rel)],
+        p = subprocess.run(["apalache-mc", "check", "--length=%d" % length, "--inv=" + inv] + (["--init=" + init] if init else []) + (["--next=" + next] if next else []) + (["--cinit=" + cinit] if cinit else []) +
+                           ["--out-dir=" + outdir, os.path.basename(spec_rel)],
                            cwd=os.path.join(SPEC, os.path.dirname(spec_rel)), stdout=subprocess.PIPE, stderr=subprocess.STDOUT, universal_newlines=True, timeout=timeout)
         txt = p.stdout
     except subprocess.TimeoutExpired:
